@@ -398,17 +398,23 @@ func (a *NodeActor) handleGossip(ctx vivid.ActorContext, m *GossipMessage) {
 	}
 	a.metricsUpdater.UpdateViewDivergence(ctx, a.clusterView, m.View)
 	sender := ctx.Sender()
+	markSenderSeen := func() {
+		if sender == nil || sender.GetAddress() == "" {
+			return
+		}
+		if member := a.clusterView.MemberByAddress(sender.GetAddress()); member != nil {
+			member.LastSeen = wallNow().UnixNano()
+			if member.Status == MemberStatusSuspect {
+				member.Status = MemberStatusUp
+			}
+		}
+	}
 	if sender != nil {
 		if addr := sender.GetAddress(); addr != "" {
 			if norm, ok := utils.NormalizeAddress(addr); ok {
 				a.lastVersionVectorByAddr[norm] = m.View.VersionVector.Clone()
 			}
-			if member := a.clusterView.MemberByAddress(addr); member != nil {
-				member.LastSeen = wallNow().UnixNano()
-				if member.Status == MemberStatusSuspect {
-					member.Status = MemberStatusUp
-				}
-			}
+			markSenderSeen()
 		}
 	}
 	a.dropStaleUnknownMembers(m.View, sender)
@@ -417,6 +423,9 @@ func (a *NodeActor) handleGossip(ctx vivid.ActorContext, m *GossipMessage) {
 		a.incrementLocalVersion()
 		changed = true
 	}
+	// 发送方若是在本次合并中才被（重新）采纳的，其条目携带的是它自己记录的 LastSeen（通常为其启动时间）：
+	// 直接收到它的 Gossip 即证明它此刻存活，需再次刷新，否则下一次故障检测会立刻将其剔除，如此反复
+	markSenderSeen()
 	if changed {
 		a.events.PublishLeaderIfChanged(ctx, a.clusterView, a.nodeState.Address, a.quorumCalc.SatisfiesQuorum(a.clusterView))
 		a.broadcastViewOnce(ctx)
